@@ -1,9 +1,13 @@
 package props
 
 import (
+	"errors"
 	"fmt"
+	"sync"
+	"sync/atomic"
 	"time"
 
+	"github.com/pion/stun/v3"
 	"github.com/pion/stun/v3/verifharness/core"
 	"github.com/pion/stun/v3/verifharness/gen"
 )
@@ -136,7 +140,135 @@ func c10Targeted(c *core.Ctx) {
 	})
 }
 
+// targetedSimultaneousClose: many goroutines enter Close at the same instant, again and again: exactly one succeeds.
+func targetedSimultaneousClose(c *core.Ctx, rounds int, o rigOpts) {
+	for k := 0; k < rounds; k++ {
+		r, err := newRig(o)
+		if err != nil {
+			c.Violate("newclient", "newclient", err.Error())
+
+			return
+		}
+		_ = r.start(r.newTx("Start", seqTID(0), 24))
+		const g = 6
+		var ready, wg sync.WaitGroup
+		var start int32
+		results := make([]error, g)
+		panics := make([]string, g)
+		for i := 0; i < g; i++ {
+			ready.Add(1)
+			wg.Add(1)
+			go func(i int) {
+				defer wg.Done()
+				defer func() {
+					if p := recover(); p != nil {
+						panics[i] = fmt.Sprint(p)
+					}
+				}()
+				ready.Done()
+				for atomic.LoadInt32(&start) == 0 { //nolint:revive // spin barrier
+				}
+				results[i] = r.client.Close()
+			}(i)
+		}
+		ready.Wait()
+		atomic.StoreInt32(&start, 1)
+		if o.noConnClose {
+			// precondition under WithNoConnClose: the pending Read eventually returns
+			go func() { time.Sleep(200 * time.Microsecond); r.conn.ReleaseRead() }()
+		}
+		wg.Wait()
+		c.Eval(1)
+		ok, closedErr := 0, 0
+		for i := 0; i < g; i++ {
+			switch {
+			case panics[i] != "":
+				c.Violate("close-panic", "close-panic", map[string]interface{}{"panic": panics[i], "options": o.String()})
+
+				return
+			case results[i] == nil:
+				ok++
+			case errors.Is(results[i], stun.ErrClientClosed):
+				closedErr++
+			}
+		}
+		n := atomic.LoadInt32(&r.conn.CloseCalls)
+		wantConn := int32(1)
+		if o.noConnClose {
+			wantConn = 0
+		}
+		if ok != 1 || closedErr != g-1 || n != wantConn {
+			c.Violate("simultaneous-close", "simultaneous-close", map[string]interface{}{
+				"options": o.String(), "round": k, "calls_returning_nil": ok, "calls_returning_ErrClientClosed": closedErr, "connection_close_calls": n})
+
+			return
+		}
+	}
+	c.Count("targeted.simultaneous_close_rounds", int64(rounds))
+}
+
+// targetedNoConnCloseWaitsForReader: under WithNoConnClose the connection stays open, so Close has to wait until the
+// pending Read returns (the precondition says it eventually does) - it must not return while the reader is still in Read.
+func targetedNoConnCloseWaitsForReader(c *core.Ctx, defaultAgent bool) {
+	c.Eval(1)
+	o := rigOpts{noConnClose: true, defaultAgent: defaultAgent}
+	r, err := newRig(o)
+	if err != nil {
+		c.Violate("newclient", "newclient", err.Error())
+
+		return
+	}
+	if r.agent != nil {
+		r.agent.OnClosed = nil // this scenario releases the Read itself
+	}
+	done := make(chan struct{})
+	cr := &closeRec{CallStamp: r.w.Tick()}
+	r.mu.Lock()
+	r.closes = append(r.closes, cr)
+	r.mu.Unlock()
+	go func() {
+		cr.Err = r.client.Close()
+		cr.RetStamp = r.w.Tick()
+		if atomic.CompareAndSwapInt32(&r.closedOnce, 0, 1) {
+			atomic.AddInt32(&openRigs, -1)
+		}
+		atomic.StoreInt32(&cr.Returned, 1)
+		close(done)
+	}()
+	early := false
+	select {
+	case <-done:
+		early = true
+	case <-time.After(150 * time.Millisecond):
+	}
+	var alive []string
+	if early {
+		alive = goroutineLeaksNow()
+	}
+	r.conn.ReleaseRead()
+	select {
+	case <-done:
+	case <-time.After(15 * time.Second):
+		c.Violate("stuck", "stuck:Close", map[string]interface{}{"scenario": "WithNoConnClose: Close, then the Read returns", "options": o.String()})
+
+		return
+	}
+	if early && len(alive) > 0 {
+		c.Violate("close-returned-before-reader-exit", "close-returned-before-reader-exit", map[string]interface{}{
+			"options": o.String(), "problem": "Close returned while the reader goroutine was still blocked in Read", "goroutines_alive_at_return": fmt.Sprint(alive)})
+	}
+	c.Count("targeted.noconnclose_waits_for_reader", 1)
+}
+
 func c15Targeted(c *core.Ctx) {
+	c.SectionSerial("targeted-simultaneous-close", 4, func(i int64, _ *gen.Rand) {
+		targetedSimultaneousClose(c, int(c.N(1500, 20000)), rigOpts{noConnClose: i%2 == 1, defaultAgent: i/2 == 1})
+		c.Distinct(uint64(i) | 10<<50)
+	})
+	c.SectionSerial("targeted-noconnclose-waits-for-reader", 2, func(i int64, _ *gen.Rand) {
+		targetedNoConnCloseWaitsForReader(c, i == 1)
+		c.Distinct(uint64(i) | 11<<50)
+	})
 	c.SectionSerial("targeted-close-during-collector-tick", 8, func(i int64, _ *gen.Rand) {
 		targetedCloseDuringCollectorTick(c, int(i))
 		c.Distinct(uint64(i) | 9<<50)
